@@ -69,6 +69,20 @@ def u1(ctx, entry_table, min_functions=1, extra_note=""):
                     f"NameError whenever this statement runs",
                     instance=f"{f.fq}:{u.name}",
                     path=ctx.cg.path_to(precise_reach, f))
+            elif u.klass == "latent" and f.parent is None and not any(
+                    part.startswith("_") for part in f.qualname.split(".")):
+                # the arm is dead for every call inside the package, but the
+                # function is public and the flag is one of its documented
+                # parameters: a user who sets it gets the NameError
+                nlive += 1
+                r.violation(
+                    "U1", f"{f.fq}|{u.name}", where, norm_stmt(stmt)[:160],
+                    f"name '{u.name}' is read in the public function "
+                    f"{f.qualname} but bound nowhere ({u.why}; the package "
+                    "itself never takes this arm, a caller who sets the "
+                    "flag does) -> NameError",
+                    instance=f"{f.fq}:{u.name}",
+                    path=ctx.cg.path_to(precise_reach, f))
             else:
                 r.note("U1", where, u.name,
                        f"unbound name '{u.name}' in {f.qualname} is "
